@@ -189,6 +189,19 @@ func (eng *Engine) addContractFile(cf *ContractFile, external bool) {
 			eng.contracts[fc.Key] = fc
 		}
 	}
+	for _, fc := range cf.Funcs {
+		if fc.Like == "" {
+			continue
+		}
+		src := eng.contracts[fc.Like]
+		if src == nil {
+			src = eng.externals[fc.Like]
+		}
+		if src == nil {
+			continue
+		}
+		fc.Requires, fc.Ensures, fc.Assigns, fc.HasAssigns, fc.Loops, fc.Pure = src.Requires, src.Ensures, src.Assigns, src.HasAssigns, src.Loops, src.Pure
+	}
 	for _, g := range cf.Ghosts {
 		eng.ghosts[g.Pkg+"."+g.Name] = g
 	}
@@ -327,9 +340,10 @@ func (eng *Engine) contractFor(fn *ssa.Function) *FuncContract {
 }
 
 func (eng *Engine) externalFor(fn *ssa.Function) *FuncContract {
-	key := eng.extKey(fn)
-	if c, ok := eng.externals[key]; ok {
-		return c
+	for _, key := range []string{eng.funcKey(fn), eng.originKey(fn), eng.extKey(fn)} {
+		if c, ok := eng.externals[key]; ok {
+			return c
+		}
 	}
 	return nil
 }
@@ -477,6 +491,20 @@ func (eng *Engine) implementsTerm(run *FuncRun, x Term, iface types.Type) Term {
 	}
 	if it.NumMethods() == 0 {
 		return Neq(x, NilAny)
+	}
+	// a literal boxing decides the test
+	if strings.HasPrefix(x.S, "(") {
+		if i := strings.IndexByte(x.S, ' '); i > 0 {
+			head := x.S[1:i]
+			for _, k := range eng.reg.anyOrder {
+				con := eng.reg.anyCons[k]
+				if con.Ctor == head {
+					if _, isTP := con.Type.(*types.TypeParam); !isTP {
+						return BoolLit(types.Implements(con.Type, it))
+					}
+				}
+			}
+		}
 	}
 	var alts []Term
 	for _, key := range append([]string(nil), eng.reg.anyOrder...) {
